@@ -126,6 +126,21 @@ func RunBufScenario(sc *BufScenario, scen int, tw *traceWriter) {
 	b := dagordering.New(dag.Metric{Num: idx.Event(sc.Limit.Num), Size: uint64(sc.Limit.Size)}, cb)
 	copyN := 0
 	for _, ev := range sc.Order {
+		if ev < 0 {
+			// the application connects the event by another path, provided its parents are connected
+			e := evs[-ev-1]
+			ok := connected[e.ID()] == nil
+			for _, p := range e.Parents() {
+				if connected[p] == nil {
+					ok = false
+				}
+			}
+			if ok {
+				connected[e.ID()] = e
+				tw.emit(rec{"op": "ext", "ev": -ev})
+			}
+			continue
+		}
 		copyN++
 		tw.emit(rec{"op": "push", "copy": copyN, "ev": ev})
 		complete := b.PushEvent(&bufCopy{evs[ev-1], copyN, sizes[ev-1]}, "peer")
@@ -175,6 +190,11 @@ func CmdBufRun(args []string) int {
 		stats["fail_"+s.Fail.Kind]++
 		if len(s.Order) > s.N {
 			stats["with_duplicate"]++
+		}
+		for _, x := range s.Order {
+			if x < 0 {
+				stats["with_external_connect"]++
+			}
 		}
 		if s.Limit.Num < s.N {
 			stats["tight_num"]++
